@@ -142,6 +142,10 @@ func nativeGo() string {
 }
 
 func main() {
+	// development aid (mutation smoke tests on a scratch worktree); registered commands never set it
+	if v := os.Getenv("GOSYM_REPO_DIR"); v != "" {
+		repoDir = v
+	}
 	specPath := flag.String("spec", "", "spec file")
 	tier := flag.String("tier", "quick", "quick|thorough")
 	only := flag.String("only", "", "run only this harness function")
